@@ -87,7 +87,7 @@ func wonly(w any) bool { return true }
 //@   ensures[C13] wonly(w)
 //@   loop 0
 //@     invariant 0 <= last && last <= i && i <= len(s)
-//@     invariant !wfailed(w) && wonly(w)
+//@     invariant[C13] !wfailed(w) && wonly(w)
 //@     decreases len(s) - i
 
 //@ func htmlNoEntitiesEscape
@@ -99,7 +99,7 @@ func wonly(w any) bool { return true }
 //@   ensures[C13] wonly(w)
 //@   loop 0
 //@     invariant 0 <= last && last <= i && i <= len(s)
-//@     invariant !wfailed(w) && wonly(w)
+//@     invariant[C13] !wfailed(w) && wonly(w)
 //@     decreases len(s) - i
 
 //@ func attributeEscape
@@ -111,7 +111,7 @@ func wonly(w any) bool { return true }
 //@   ensures[C13] wonly(w)
 //@   loop 0
 //@     invariant 0 <= last && last <= i && i <= len(s)
-//@     invariant !wfailed(w) && wonly(w)
+//@     invariant[C13] !wfailed(w) && wonly(w)
 //@     decreases len(s) - i
 
 //@ func cssStringEscape
@@ -123,7 +123,7 @@ func wonly(w any) bool { return true }
 //@   ensures[C13] wonly(w)
 //@   loop 0
 //@     invariant 0 <= last && last <= i && i <= len(s)
-//@     invariant !wfailed(w) && wonly(w)
+//@     invariant[C13] !wfailed(w) && wonly(w)
 //@     decreases len(s) - i
 
 //@ func jsStringEscape
@@ -135,7 +135,7 @@ func wonly(w any) bool { return true }
 //@   ensures[C13] wonly(w)
 //@   loop 0
 //@     invariant 0 <= last && last <= i && i <= len(s)
-//@     invariant !wfailed(w) && wonly(w)
+//@     invariant[C13] !wfailed(w) && wonly(w)
 
 //@ func jsonStringEscape
 //@   props C05 C13 C07
@@ -154,7 +154,7 @@ func wonly(w any) bool { return true }
 //@   ensures[C13] wonly(w)
 //@   loop 0
 //@     invariant 0 <= last && last <= i && i <= len(s)
-//@     invariant !wfailed(w) && wonly(w)
+//@     invariant[C13] !wfailed(w) && wonly(w)
 //@     invariant buf == nil || len(buf) == 3
 //@     decreases len(s) - i
 
@@ -167,7 +167,7 @@ func wonly(w any) bool { return true }
 //@   ensures[C13] wonly(w)
 //@   loop 0
 //@     invariant 0 <= last && last <= i && i <= len(s)
-//@     invariant !wfailed(w) && wonly(w)
+//@     invariant[C13] !wfailed(w) && wonly(w)
 //@     invariant buf == nil || len(buf) == 3
 //@     decreases len(s) - i
 
@@ -190,7 +190,7 @@ func wonly(w any) bool { return true }
 //@   ensures[C13] wonly(w)
 //@   loop 0
 //@     invariant 0 <= last && last <= i && i <= len(s)
-//@     invariant !wfailed(w) && wonly(w)
+//@     invariant[C13] !wfailed(w) && wonly(w)
 //@     decreases len(s) - i
 
 // ---------------------------------------------------------------------------
@@ -705,7 +705,7 @@ func wkey(w any) int { return 0 }
 //@   ensures[C13] wonly(w)
 //@   loop 0
 //@     invariant 0 <= last && last <= i && last <= len(s) && i <= len(s)+1
-//@     invariant !wfailed(w) && wonly(w)
+//@     invariant[C13] !wfailed(w) && wonly(w)
 //@     decreases len(s) - i
 //@   loop 1
 //@     invariant 0 <= last && last <= i && i <= len(s) && entry(i) <= i
